@@ -390,12 +390,23 @@ impl Model {
                     format!("{:?} of key {} acknowledged with CAS 0", kind, wire::hex_short(key, 16)),
                 );
             }
-            if check_unique && !client && seen.contains(&c) {
-                self.v(
-                    "C02",
-                    "cas-reused-within-lifetime",
-                    format!("{:?} of key {} acknowledged CAS {} which the item already carried during this lifetime (seen {:?})", kind, wire::hex_short(key, 16), c, seen),
-                );
+            if check_unique && seen.contains(&c) {
+                if client {
+                    // the lifetime began with a CAS-carrying store of an absent key, whose token is
+                    // derived from the client's (supplied + 1) and not from the global counter: the
+                    // counter reaches that value later
+                    self.v(
+                        "C02",
+                        "cas-reused-in-lifetime-begun-with-client-cas",
+                        format!("{:?} of key {} acknowledged CAS {} which the item already carried during this lifetime (seen {:?}); the lifetime began with a CAS-carrying store of an absent key", kind, wire::hex_short(key, 16), c, seen),
+                    );
+                } else {
+                    self.v(
+                        "C02",
+                        "cas-reused-within-lifetime",
+                        format!("{:?} of key {} acknowledged CAS {} which the item already carried during this lifetime (seen {:?})", kind, wire::hex_short(key, 16), c, seen),
+                    );
+                }
             }
             seen.insert(c);
             self.record_cas(key, c);
@@ -441,12 +452,13 @@ impl Model {
                 }
             }
             None => {
-                let dup = it.cas_seen.contains(&cas) && !it.client_cas_lifetime;
+                let dup = it.cas_seen.contains(&cas);
+                let client = it.client_cas_lifetime;
                 it.cas = Some(cas);
                 it.cas_seen.insert(cas);
                 if dup {
                     let d = format!("quiet mutation of key {} left CAS {} which the item already carried", wire::hex_short(key, 16), cas);
-                    self.v("C02", "cas-reused-within-lifetime", d);
+                    self.v("C02", if client { "cas-reused-in-lifetime-begun-with-client-cas" } else { "cas-reused-within-lifetime" }, d);
                 }
                 self.record_cas(key, cas);
             }
